@@ -75,6 +75,50 @@ func cloneEnv(e Env) Env {
 type Outcome struct {
 	st   *State
 	phis []Value
+	env  Env // the arm's environment on reaching the join block
+}
+
+// PoisonV stands for a loop-carried value whose two versions could not be merged;
+// it is harmless unless used.
+type PoisonV struct{ msg string }
+
+// mergeEnv brings values that an arm re-defined (a block executed again through a
+// loop back edge inside the arm, e.g. the header phi of `for ; err == nil && ...`)
+// back into the parent environment: after the join such a value is the one of the
+// last execution on the path taken, not the one the parent saw before the fork.
+func mergeEnv(env Env, c *Term, eT, eF Env) {
+	for k, pv := range env {
+		var nv Value
+		switch {
+		case eT != nil && eF != nil:
+			vT, okT := eT[k]
+			vF, okF := eF[k]
+			if !okT || !okF {
+				continue
+			}
+			if vT == vF {
+				nv = vT
+			} else {
+				nv = safeIteV(c, vT, vF)
+			}
+		case eT != nil:
+			nv = eT[k]
+		case eF != nil:
+			nv = eF[k]
+		}
+		if nv != nil && nv != pv {
+			env[k] = nv
+		}
+	}
+}
+
+func safeIteV(c *Term, a, b Value) (r Value) {
+	defer func() {
+		if x := recover(); x != nil {
+			r = &PoisonV{msg: fmt.Sprint(x)}
+		}
+	}()
+	return IteV(c, a, b)
 }
 
 type RetOutcome struct {
@@ -240,6 +284,9 @@ func (e *Engine) eval(st *State, env Env, v ssa.Value) Value {
 	r, ok := env[v]
 	if !ok {
 		panic(fmt.Sprintf("engine: no value for %s (%T) in %s", v.Name(), v, v.Parent()))
+	}
+	if p, ok := r.(*PoisonV); ok {
+		panic(unsupported("use of a loop-carried value whose versions cannot be merged (%s)", p.msg))
 	}
 	return r
 }
@@ -463,7 +510,7 @@ func (e *Engine) execRegion(fr *Frame, st *State, env Env, b *ssa.BasicBlock, pr
 			if phisDone {
 				panic("engine: phisDone at stop")
 			}
-			return &Outcome{st: st, phis: e.phiVals(st, env, b, pred)}, retAcc
+			return &Outcome{st: st, phis: e.phiVals(st, env, b, pred), env: env}, retAcc
 		}
 		// phis
 		if !phisDone {
@@ -602,6 +649,17 @@ func (e *Engine) execRegion(fr *Frame, st *State, env Env, b *ssa.BasicBlock, pr
 			if o == nil {
 				return nil, retAcc
 			}
+			{
+				var eT, eF Env
+				if oT != nil {
+					eT = oT.env
+				}
+				if oF != nil {
+					eF = oF.env
+				}
+				mergeEnv(env, c, eT, eF)
+				o = &Outcome{st: o.st, phis: o.phis, env: env}
+			}
 			if J == stop {
 				return o, retAcc
 			}
@@ -718,17 +776,21 @@ func (e *Engine) step(fr *Frame, st *State, env Env, in ssa.Instruction) *State 
 			e.addQuery("panic", "assignment to entry in nil map", st.g, x)
 			return nil
 		}
-		k := e.mapKey(e.eval(st, env, x.Key))
 		old := st.read(m.obj, 0).(*MapContent)
 		nc := &MapContent{ents: map[string]mapEnt{}}
 		nc.keys = append(nc.keys, old.keys...)
 		for kk, vv := range old.ents {
 			nc.ents[kk] = vv
 		}
-		if _, ok := nc.ents[k]; !ok {
-			nc.keys = append(nc.keys, k)
+		nv := e.eval(st, env, x.Value)
+		for _, ka := range e.mapKeys(e.eval(st, env, x.Key)) {
+			if en, ok := nc.ents[ka.s]; ok {
+				nc.ents[ka.s] = mapEnt{Or(ka.g, en.present), IteV(ka.g, nv, en.v)}
+			} else {
+				nc.keys = append(nc.keys, ka.s)
+				nc.ents[ka.s] = mapEnt{ka.g, nv}
+			}
 		}
-		nc.ents[k] = mapEnt{TTrue, e.eval(st, env, x.Value)}
 		st.write(m.obj, 0, nc)
 	case *ssa.Lookup:
 		env[x] = e.lookup(st, env, x)
@@ -766,7 +828,46 @@ func (e *Engine) step(fr *Frame, st *State, env Env, in ssa.Instruction) *State 
 			}
 			st = nst
 		}
-	case *ssa.SliceToArrayPointer, *ssa.Range, *ssa.Next, *ssa.Select, *ssa.Send, *ssa.Go, *ssa.MakeChan:
+	case *ssa.Range:
+		m, ok := e.eval(st, env, x.X).(*MapV)
+		if !ok {
+			panic(unsupported("range over a string at %s", e.prog.Fset.Position(in.Pos())))
+		}
+		it := &IterV{m: m}
+		if m.obj != nil {
+			it.keys = append(it.keys, st.read(m.obj, 0).(*MapContent).keys...)
+		}
+		objCounter++
+		it.pos = &Obj{id: objCounter, label: "mapiter", n: 1, esz: 1}
+		st.heap[it.pos.id] = &ObjData{cells: []Value{BVConst(0, 64)}, owner: st}
+		st.objs[it.pos.id] = it.pos
+		env[x] = it
+	case *ssa.Next:
+		// the next key (in snapshot order: one arbitrary but fixed iteration order) that is
+		// still present in the map now; entries added during the iteration are not visited
+		it := e.eval(st, env, x.Iter).(*IterV)
+		mt := x.Iter.(*ssa.Range).X.Type().Underlying().(*types.Map)
+		pos := st.read(it.pos, 0).(*Term)
+		okT, newPos := TFalse, BVConst(int64(len(it.keys)), 64)
+		var kv Value = zeroValue(mt.Key())
+		var vv Value = zeroValue(mt.Elem())
+		if it.m.obj != nil {
+			mc := st.read(it.m.obj, 0).(*MapContent)
+			for j := len(it.keys) - 1; j >= 0; j-- {
+				en, has := mc.ents[it.keys[j]]
+				if !has {
+					continue
+				}
+				c := And(SLe(pos, BVConst(int64(j), 64)), en.present)
+				okT = Or(c, okT)
+				newPos = Ite(c, BVConst(int64(j+1), 64), newPos)
+				kv = IteV(c, &StrV{id: internStr(it.keys[j])}, kv)
+				vv = IteV(c, en.v, vv)
+			}
+		}
+		st.write(it.pos, 0, newPos)
+		env[x] = &TupleV{vs: []Value{okT, kv, vv}}
+	case *ssa.SliceToArrayPointer, *ssa.Select, *ssa.Send, *ssa.Go, *ssa.MakeChan:
 		panic(unsupported("instruction %T at %s", in, e.prog.Fset.Position(in.Pos())))
 	default:
 		panic(unsupported("instruction %T at %s", in, e.prog.Fset.Position(in.Pos())))
@@ -782,25 +883,68 @@ func (e *Engine) newMapObj(st *State) *Obj {
 	return o
 }
 
-func (e *Engine) mapKey(v Value) string {
+type keyAlt struct {
+	g *Term
+	s string
+}
+
+// mapKeys: the candidate concrete keys of a (possibly symbolic) string key, each
+// with the condition under which the key equals it. A symbolic key must be an
+// ite-chain over interned constants (pool strings, keys of the same map).
+func (e *Engine) mapKeys(v Value) []keyAlt {
 	s, ok := v.(*StrV)
-	if !ok || !s.conc {
-		panic(unsupported("map key must be a concrete string"))
+	if !ok {
+		panic(unsupported("map key must be a string"))
 	}
-	return s.s
+	if s.conc {
+		return []keyAlt{{TTrue, s.s}}
+	}
+	if s.id == nil {
+		panic(unsupported("map key: byte-string"))
+	}
+	seen := map[int64]bool{}
+	var ids []int64
+	var walk func(t *Term)
+	walk = func(t *Term) {
+		if t.IsConst() {
+			if id := t.Int64(); !seen[id] {
+				seen[id] = true
+				ids = append(ids, id)
+			}
+			return
+		}
+		if t.op == OIte {
+			walk(t.args[1])
+			walk(t.args[2])
+			return
+		}
+		panic(unsupported("map key: symbolic string that is not drawn from a finite pool"))
+	}
+	walk(s.id)
+	var out []keyAlt
+	for _, id := range ids {
+		if id < 0 || int(id) >= len(strByID) {
+			panic(unsupported("map key: unknown string id"))
+		}
+		out = append(out, keyAlt{Eq(s.id, BVConst(id, 32)), strByID[id]})
+	}
+	return out
 }
 
 func (e *Engine) lookup(st *State, env Env, x *ssa.Lookup) Value {
 	xv := e.eval(st, env, x.X)
 	if m, ok := xv.(*MapV); ok {
-		k := e.mapKey(e.eval(st, env, x.Index))
 		elemT := x.X.Type().Underlying().(*types.Map).Elem()
 		v := zeroValue(elemT)
 		found := TFalse
 		if m.obj != nil {
-			if en, ok := st.read(m.obj, 0).(*MapContent).ents[k]; ok {
-				found = en.present
-				v = IteV(en.present, en.v, v)
+			mc := st.read(m.obj, 0).(*MapContent)
+			for _, ka := range e.mapKeys(e.eval(st, env, x.Index)) {
+				if en, ok := mc.ents[ka.s]; ok {
+					c := And(ka.g, en.present)
+					found = Or(c, found)
+					v = IteV(c, en.v, v)
+				}
 			}
 		}
 		if x.CommaOk {
@@ -1673,6 +1817,24 @@ func restrictPtr(p *PtrV, g *Term) *PtrV {
 
 func (e *Engine) builtin(st *State, name string, args []Value, site ssa.Instruction) (*State, Value) {
 	switch name {
+	case "delete":
+		m := args[0].(*MapV)
+		if m.obj == nil {
+			return st, nil
+		}
+		old := st.read(m.obj, 0).(*MapContent)
+		nc := &MapContent{ents: map[string]mapEnt{}}
+		nc.keys = append(nc.keys, old.keys...)
+		for kk, vv := range old.ents {
+			nc.ents[kk] = vv
+		}
+		for _, ka := range e.mapKeys(args[1]) {
+			if en, ok := nc.ents[ka.s]; ok {
+				nc.ents[ka.s] = mapEnt{And(Not(ka.g), en.present), en.v}
+			}
+		}
+		st.write(m.obj, 0, nc)
+		return st, nil
 	case "len":
 		switch x := args[0].(type) {
 		case *SliceV:
